@@ -19,7 +19,7 @@ Each change must:
 1. be a small, realistic edit to files under src/pynguin (the kind of mistake a maintainer could make in a refactoring or "optimisation": a dropped guard, a restore moved out of a finally, a swapped argument, a wrong comparison, a stale cache, an off-by-one, one of two cooperating sites changed and not the other ...), not a comment or an obviously malicious edit, and not touching tests;
 2. still compile and keep the existing suite at `stable_not_passing=0`;
 3. genuinely break the property above, in a way that needs something specific to manifest (a particular input, an exception at a particular point, a multi-step sequence of operations, a particular configuration, or two cooperating sites that each look fine alone) rather than something ordinary use would expose at once;
-4. come with a demonstration: a small standalone python program (or pytest file) that exits non-zero / fails WITH the change and exits 0 / passes WITHOUT it (on the unmodified worktree). Verify both directions yourself (`git -C /tmp/wt/{pid} stash` / `stash pop`, or `git diff > patch; git checkout -- .; ...; git apply patch`).
+4. come with a demonstration: a small standalone python program (or pytest file) that exits non-zero / fails WITH the change and exits 0 / passes WITHOUT it (on the unmodified worktree). Verify both directions yourself with `git -C /tmp/wt/{pid} diff > /tmp/seeded/{pid}-X/patch.diff; git -C /tmp/wt/{pid} checkout -- .; ...; git -C /tmp/wt/{pid} apply /tmp/seeded/{pid}-X/patch.diff`. NEVER use `git stash` (the stash is shared with other worktrees of the same repository that other people are using concurrently).
 
 For each variant X in {{a, b}} write into /tmp/seeded/{pid}-X/ :
 - patch.diff  : `git -C /tmp/wt/{pid} diff -- src` for that variant ALONE (relative to the unmodified worktree HEAD; it must apply with `git apply` on a clean checkout),
